@@ -8,3 +8,4 @@ pub mod runner;
 pub mod keymodel;
 pub mod fuzzglue;
 pub mod fuzzdecode;
+pub mod collide;
